@@ -39,7 +39,11 @@ def build_schema(spec=None):
     )
     if spec.get("dyn_glob"):
         # a dynamic (glob) field: documents use concrete names such as a_dyn / b_dyn
-        s.add("*_dyn", fields.KEYWORD(stored=True, scorable=True), glob=True)
+        if spec.get("dyn_unstored"):
+            # ... whose per-document data (length, vector, column) exists only under the concrete names
+            s.add("*_dyn", fields.KEYWORD(stored=False, scorable=True, vector=True, sortable=True), glob=True)
+        else:
+            s.add("*_dyn", fields.KEYWORD(stored=True, scorable=True), glob=True)
     if spec.get("c_column"):
         # a field that is a column only (no postings, not stored)
         s.add("c", fields.COLUMN())
